@@ -235,7 +235,9 @@ func (m *runtimeContextManager) ReleaseMem(memAmount uint64) {
 		if memAmount <= m.usedResources.Memory {
 			m.usedResources.Memory -= memAmount
 		} else {
-			panic("Too much mem released")
+			// Memory required in an enclosing context (e.g. by a coroutine
+			// created there) can be released in this one.
+			m.usedResources.Memory = 0
 		}
 	}
 }
